@@ -20,12 +20,12 @@ use std::sync::{Arc, Mutex};
 pub fn def() -> PropDef {
     PropDef {
         id: "C16",
-        rule: "1 thread x every script of 3..4 steps (thorough 5); 2 threads x scripts of <=2 steps (thorough: 3 steps against <=2) and 3 threads x scripts of <=2 steps over {fail with one of ten messages through seven table entries (two of them the same kind of error with different texts) (raw_name_from_str and rename fail in two ways each; set_raw_name, delete and set_name fail inside an iteration callback), succeed (add_to_answer; in the single-thread scripts also rename, delete and set_raw_name inside a callback, raw_name_from_str), read description through the thread's last CErr*, look again at the description text retrieved earlier}; every interleaving of the steps (step-level points, unbounded) and, with the library's yield points around the error store enabled, every interleaving with at most 2 preemptions; the same with every call handed a stale handle variable, and with all threads working on ONE packet handed from thread to thread; each execution runs on real OS threads under a baton scheduler and is compared with the per-thread expectation; a crowd of N in {1..600} threads failing and exiting while one thread keeps its description; distinct classes = (threads, script shapes, own or shared packet, whether a foreign failure lies between a failure and its read)",
+        rule: "1 thread x every script of 3..4 steps (thorough 5); 2 threads x scripts of <=2 steps (thorough: 3 steps against <=2) and 3 threads x scripts of <=2 steps over {fail with one of eleven messages through seven table entries (among them two texts of the same kind of error, and two records that parse but cannot be built for different reasons) (raw_name_from_str and rename fail in two ways each; set_raw_name, delete and set_name fail inside an iteration callback), succeed (add_to_answer; in the single-thread scripts also rename, delete and set_raw_name inside a callback, raw_name_from_str), read description through the thread's last CErr*, look again at the description text retrieved earlier}; every interleaving of the steps (step-level points, unbounded) and, with the library's yield points around the error store enabled, every interleaving with at most 2 preemptions; the same with every call handed a stale handle variable, and with all threads working on ONE packet handed from thread to thread; each execution runs on real OS threads under a baton scheduler and is compared with the per-thread expectation; a crowd of N in {1..600} threads failing and exiting while one thread keeps its description; distinct classes = (threads, script shapes, own or shared packet, whether a foreign failure lies between a failure and its read)",
         run,
         replay,
         bounds: |t| json!({"threads": [2, 3], "steps_2_threads": t.pick(2, 3), "steps_3_threads": 2, "preemption_bound_with_library_points": t.pick(2, 3), "max_executions_per_tuple": 20000}),
         assumptions: &["scheduling granularity = table calls plus the hook points inside throw_err; data races below that granularity are out of scope (no instrumented std offline)"],
-        budget_s: |t| t.pick(55, 900),
+        budget_s: |t| t.pick(75, 900),
         exhaustive: true,
         nshards: 16,
         post: |rep, _| {
@@ -171,6 +171,12 @@ fn do_step(t: &FnTable, c: &mut ThreadCtx, s: Step) -> Result<String, String> {
                         let txt = CString::new(format!("t. 1 IN TXT \"{}\"", "z".repeat(4000))).unwrap();
                         (t.add_to_answer)(&mut *c.pp, &mut err, txt.as_ptr())
                     }
+                    10 => {
+                        // a record whose text parses but which cannot be built, for another reason than 9
+                        let owner = format!("{}.{}.{}.{}.toolong", "a".repeat(62), "b".repeat(62), "c".repeat(62), "d".repeat(61));
+                        let txt = CString::new(format!("{} 1 IN A 1.2.3.4", owner)).unwrap();
+                        (t.add_to_answer)(&mut *c.pp, &mut err, txt.as_ptr())
+                    }
                     5 => {
                         let tgt = [1u8; 300];
                         let src = [1u8, b'z', 0];
@@ -304,6 +310,7 @@ fn expected_messages() -> Vec<String> {
         }),
         e(r#gen::raw_name_from_str(b"\xe9t\xe9.example", None).map(|_| ())),
         e(fresh().insert_rr_from_string(Section::Answer, &format!("t. 1 IN TXT \"{}\"", "z".repeat(4000)))),
+        e(fresh().insert_rr_from_string(Section::Answer, &format!("{}.{}.{}.{}.toolong 1 IN A 1.2.3.4", "a".repeat(62), "b".repeat(62), "c".repeat(62), "d".repeat(61)))),
     ]
 }
 
@@ -400,7 +407,7 @@ fn scripts_upto(n: usize) -> Vec<Vec<Step>> {
 
 /// `all_entries`: successful calls through every kind of entry, not only add_to_answer
 fn scripts_over(n: usize, all_entries: bool) -> Vec<Vec<Step>> {
-    let mut alpha = vec![Step::Fail(0), Step::Fail(1), Step::Fail(2), Step::Fail(3), Step::Fail(4), Step::Fail(5), Step::Fail(6), Step::Fail(7), Step::Fail(8), Step::Fail(9), Step::Succeed, Step::Read, Step::Peek];
+    let mut alpha = vec![Step::Fail(0), Step::Fail(1), Step::Fail(2), Step::Fail(3), Step::Fail(4), Step::Fail(5), Step::Fail(6), Step::Fail(7), Step::Fail(8), Step::Fail(9), Step::Fail(10), Step::Succeed, Step::Read, Step::Peek];
     if all_entries {
         alpha.extend([Step::SucceedVia(0), Step::SucceedVia(1), Step::SucceedVia(2), Step::SucceedVia(3)]);
     }
@@ -508,7 +515,7 @@ fn explore_tuple_m(ctx: &mut Ctx, rep: &mut Report, scripts: &[Vec<Step>], libpo
 
 fn run(ctx: &mut Ctx, rep: &mut Report) {
     let exp = expected_messages();
-    if exp.iter().collect::<std::collections::BTreeSet<_>>().len() < 9 || exp.iter().any(|m| m == "<no error>") {
+    if exp.iter().collect::<std::collections::BTreeSet<_>>().len() < 10 || exp.iter().any(|m| m == "<no error>") {
         rep.vacuity.push(format!("the nine failing calls produce fewer than eight distinct messages: {:?}", exp));
     }
     let s2 = scripts_upto(2);
